@@ -50,9 +50,6 @@ func c15States(seed int64) (states []c15State, genuine map[string][2][]byte) {
 	// the version is fixed up-front: a fresh conversation commits to the version of the first message it sees
 	// before it looks at the tags, which is negotiation (C16), not tag isolation
 	w := verifNewPair(verifPairCfg{Seed: seed, PolA: verifPolFor(3), PolB: verifPolFor(3), VA: 3, VB: 3})
-	for _, p := range w.P {
-		p.C.GetOurInstanceTag()
-	}
 	gotEncoded := [2]bool{} // the party has received a well-formed OTR-encoded message from its peer
 	snap := func(name string) {
 		for r := 0; r < 2; r++ {
@@ -75,6 +72,12 @@ func c15States(seed int64) (states []c15State, genuine map[string][2][]byte) {
 				genuine[k] = g
 			}
 		}
+	}
+	// own tags are drawn lazily: a conversation that has not sent anything yet has none, and then no non-zero
+	// receiver tag is its own
+	snap("fresh-untagged")
+	for _, p := range w.P {
+		p.C.GetOurInstanceTag()
 	}
 	snap("fresh")
 	w.Q[1] = append(w.Q[1], w.P[0].Query())
@@ -315,7 +318,7 @@ func init() {
 			return nil
 		},
 		Run: func(r *verifReport) {
-			r.Rule = "(a) every scripted answer sequence of length ≤ 3 over {0,1,0xff,0x100,0x101,0xffffffff} to the 4-byte reads of the randomness source: own tag ≥ 0x100 and carried by every emitted v3 header; (b) receiver in each state of an honest v3 exchange (fresh, after each handshake step in both roles, encrypted, after traffic, finished) × every sequence of ≤ 2 (thorough: 3 for the first-message kinds) messages from {DH-Commit, DH-Key, Reveal-Sig, Sig, data, fragment} × sender tag {0,1,0xff,0x100,peer,other valid} × receiver tag {0,0x50,own,other valid} built from genuine traffic; lock-step reference model of the binding; foreign/malformed messages: no plaintext, no reply except an OTR error for malformed ones, conversation state hash unchanged, binding unchanged; after every sequence that changed nothing the genuine continuation is trivially identical, after one that did the continuation is run differentially; (c) ExtractInstanceTags on every message and fragment of (b) returns exactly the tags written"
+			r.Rule = "(a) every scripted answer sequence of length ≤ 3 over {0,1,0xff,0x100,0x101,0xffffffff} to the 4-byte reads of the randomness source: own tag ≥ 0x100 and carried by every emitted v3 header; (b) receiver in each state of an honest v3 exchange (fresh before and after drawing its own tag, after each handshake step in both roles, encrypted, after traffic, finished) × every sequence of ≤ 2 (thorough: 3 for the first-message kinds) messages from {DH-Commit, DH-Key, Reveal-Sig, Sig, data, fragment} × sender tag {0,1,0xff,0x100,peer,other valid} × receiver tag {0,0x50,own,other valid} built from genuine traffic; lock-step reference model of the binding; foreign/malformed messages: no plaintext, no reply except an OTR error for malformed ones, conversation state hash unchanged, binding unchanged; after every sequence that changed nothing the genuine continuation is trivially identical, after one that did the continuation is run differentially; (c) ExtractInstanceTags on every message and fragment of (b) returns exactly the tags written"
 			r.Assumptions = []string{"whether a well-formed first message addressed to another receiver instance binds the peer tag is left open (both accepted)", "hostile messages are genuine messages with rewritten tags"}
 			c15OwnTag(r)
 			c15Extract(r)
